@@ -24,11 +24,17 @@
     (unless an earlier record already stopped it): unparseable question, undelimitable record,
     OPT/TSIG in the answer/authority sections, second OPT, TSIG not last, TSIG with wrong class or
     non-zero TTL, QUERY without question, trailing octets.
-  Partial in one respect (`C08_full`): after a TSIG record that *verifies* the server goes on to the
-  end-of-message check and the dispatch; the spec's verdict there is `tsigReached` (C10's domain) and
-  the theorems here do not cover what follows it.
+  After a TSIG record that *verifies* the server goes on to the end-of-message check and the dispatch
+  (the spec's verdict is `tsigReached`, C10's domain):
+  * `C08_after_verified_tsig` — if octets remain after the TSIG record, or a QUERY has no question,
+    the response is `finish` of the writer the TSIG step left with RCODE FORMERR set and nothing
+    else changed (`C08_tsig_trailing`, `C08_tsig_no_question`: the two causes).
+  Partial in one respect (`C08_full`): for those authenticated requests the statement is about the
+  writer *state* handed to `finish`, not about the octets of the TSIG-completed response (C10's /
+  C12's gap).  For all other requests the theorems are octet-exact.
 -/
 import QV.Proofs.ServerProps
+import QV.Proofs.ScanTsigCont
 
 namespace QV.C08
 open QV QV.Spec.Server QV.ServerScan
@@ -138,6 +144,40 @@ theorem C08_cause_end (lookup : List UInt8 → Nat → Option ZoneKind) (S : Nat
   · subst ho hq
     by_cases h3 : p3 < msg.size <;> simp [h3]
 
+/-! ### after a TSIG record that verifies -/
+
+/-- octets after the (last) TSIG record: a format error -/
+theorem C08_tsig_trailing (lookup : List UInt8 → Nat → Option ZoneKind) (size : Nat) (q : Option Spec.DQuestion)
+    (pos opcode : Nat) (h : pos < size) : endVerdict lookup size q pos opcode = .formErr := by
+  unfold endVerdict; rw [if_pos h]
+
+/-- a signed QUERY without question: a format error -/
+theorem C08_tsig_no_question (lookup : List UInt8 → Nat → Option ZoneKind) (size pos : Nat) (h : ¬ pos < size) :
+    endVerdict lookup size none pos 0 = .formErr := by
+  unfold endVerdict; rw [if_neg h]; rfl
+
+/-- **Theorem (signed requests).** For a request whose scan reaches a well-formed TSIG record: if
+    the TSIG step authenticates (leaving the writer `S`) and the end-of-message check or the missing
+    question makes the verdict FORMERR, the response is `finish` of `S` with RCODE FORMERR set and
+    nothing else changed — in particular no answer or authority record is added. -/
+theorem C08_after_verified_tsig (cfg : Server.Cfg) (tr : Server.Transport) (now bufLen : Nat) (req : Bytes)
+    (hbuf : minBuf tr cfg.payload ≤ bufLen) (hpay : 512 ≤ cfg.payload) (hreq : req.size ≤ Rdata.USIZE_MAX)
+    (hr : (specScanWith (catKind cfg) cfg.payload req).respond = true)
+    (hv : (specScanWith (catKind cfg) cfg.payload req).verdict = .tsigReached) :
+    ∃ (t : Tsig.ReadTsigRr) (mw : Bytes) (r' : Reader.Reader), r'.octets = req ∧ r'.cursor ≤ req.size ∧
+      ∀ r'' S, Server.tsigAfter cfg now t mw r' (preTsigState cfg tr bufLen req) = (.ok (some r''), S) →
+        endVerdict (catKind cfg) req.size (specScanWith (catKind cfg) cfg.payload req).question
+          r'.cursor ((req.getD 2 0).toNat / 8 % 16) = .formErr →
+        Server.handleMessage cfg tr now bufLen req =
+          match Writer.finish (Writer.stRcode 1 S) Server.macFn with
+          | .ok (bytes, _) => .ok (some bytes)
+          | _ => .panic := by
+  obtain ⟨t, mw, r', h1, h2, h3⟩ := handleMessage_after_tsig cfg tr now bufLen req hbuf hpay hreq hr hv
+  refine ⟨t, mw, r', h1, h2, fun r'' S hT hev => ?_⟩
+  have := h3 r'' S hT (by rw [hev]; simp)
+  rw [this, hev]
+  rfl
+
 /-! ### non-vacuity: each cause on a concrete request -/
 
 def exCfg : Server.Cfg := { payload := 1232, zones := [] }
@@ -173,5 +213,17 @@ example : ∃ b, Server.handleMessage exCfg .udp 0 65535 exTrailing = .ok (some 
   obtain ⟨b, hb, hl, _⟩ := C08_formerr_response exCfg .udp 0 65535 exTrailing (by decide) (by decide) (by decide)
     (by decide +kernel) (by decide +kernel)
   exact ⟨b, hb, by rw [hl]; decide +kernel⟩
+
+/-- `. IN NS` signed with a (syntactically well-formed) TSIG record, key `k.`, hmac-sha256, as the
+    last record: the scan reaches TSIG processing — the hypothesis of `C08_after_verified_tsig` -/
+def exSigned : Bytes :=
+  #[0, 1, 0, 0, 0, 1, 0, 0, 0, 0, 0, 1, 0, 0, 2, 0, 1,
+    1, 107, 0, 0, 250, 0, 255, 0, 0, 0, 0, 0, 61,
+    11, 104, 109, 97, 99, 45, 115, 104, 97, 50, 53, 54, 0,
+    0, 0, 0, 0, 0, 0, 1, 44, 0, 32,
+    0, 0, 0, 0, 0, 0, 0, 0, 0, 0, 0, 0, 0, 0, 0, 0, 0, 0, 0, 0, 0, 0, 0, 0, 0, 0, 0, 0, 0, 0, 0, 0,
+    0, 1, 0, 0, 0, 0]
+example : (specScanWith (catKind exCfg) 1232 exSigned).verdict = .tsigReached ∧
+    (specScanWith (catKind exCfg) 1232 exSigned).respond = true := by decide +kernel
 
 end QV.C08
